@@ -207,8 +207,52 @@ def name_mapping_roundtrips(ctx: Ctx, n: int):
             ctx.fail("roundtrip:name-mapping", f"round trip under name_mapping({kw}) changed the value", case)
 
 
+def optional_models(ctx: Ctx, eng: morph.Engine, n: int):
+    """models whose fields are all optional (so the FIRST extracted key is optional) with Optional types, non-None defaults
+    and explicit None values; dataclass and TypedDict(total=False); nested in a list and in another model"""
+    import dataclasses
+    from typing import Optional, TypedDict
+    rng = ctx.rng
+    for i in range(n):
+        nf = rng.randint(1, 3)
+        names = rng.sample(["timeout", "retries", "tags", "alpha", "zeta", "b"], nf)
+        fields, pool = [], {}
+        for nm in names:
+            tp, vals = rng.choice([(Optional[int], [None, 0, 30]), (Optional[str], [None, "", "x"]),
+                                   (Optional[list[int]], [None, [], [1]])])
+            dflt = rng.choice(vals)
+            pool[nm] = vals
+            if isinstance(dflt, list):
+                fields.append((nm, tp, dataclasses.field(default_factory=lambda d=dflt: list(d))))
+            else:
+                fields.append((nm, tp, dataclasses.field(default=dflt)))
+        cls = dataclasses.make_dataclass(f"Opt{i}", fields)
+        td = TypedDict(f"OptTD{i}", {nm: tp for nm, tp, _ in fields}, total=False)
+        outer = dataclasses.make_dataclass(f"OptOuter{i}", [("inner", cls), ("many", list[cls])])
+        for _ in range(3):
+            x = cls(**{nm: rng.choice(pool[nm]) for nm in names})
+            tdv = {nm: rng.choice(pool[nm]) for nm in names if rng.random() < 0.8}
+            for (m, s) in morph.CONFIGS:
+                r = eng.real.retorts[(m, s)]
+                for hint, v in ((cls, x), (td, tdv), (outer, outer(inner=x, many=[x]))):
+                    case = {"probe": "optional-first-field", "fields": [(nm, repr(tp), repr(f.default)) for nm, tp, f in fields],
+                            "value": repr(v)[:200], "mode": m, "strict": s, "kind": getattr(hint, "__name__", "?")}
+                    ctx.note_case(case, nontrivial=True, kind="roundtrip:optional-model")
+                    try:
+                        d = r.dump(v, hint)
+                        v2 = r.load(d, hint)
+                        v3 = r.load(json.loads(json.dumps(d)), hint)
+                    except Exception as e:  # noqa: BLE001
+                        ctx.fail("roundtrip:model:optional-fields:raises", f"round trip of {v!r:.80} raised {type(e).__name__} [{m}, strict={s}]", case)
+                        continue
+                    if v2 != v or v3 != v:
+                        ctx.fail("roundtrip:model:optional-fields", f"load(dump(x)) != x for a model with optional fields [{m}, strict={s}]: "
+                                 f"{v!r:.80} -> {v2!r:.80}", case)
+
+
 def run(ctx: Ctx):
     eng = morph.Engine(ctx)
+    optional_models(ctx, eng, ctx.budget(25, 600))
     specs = eng.gen_specs(ctx.budget(160, 2500), 3 if ctx.tier == "quick" else 4)
     # correspondences of the model the theorem is about
     drecs = eng.dump_records(specs, suite="dump", n_values=2)
@@ -242,6 +286,7 @@ def run(ctx: Ctx):
 def search(ctx: Ctx):
     eng = morph.Engine(ctx)
     eng.drv = None
+    optional_models(ctx, eng, 300)
     for spec in eng.gen_specs(2000, 4):
         if eng.real.dump("DISABLE", True, spec.hint, None).get("r") == "no-dumper":
             continue
